@@ -259,7 +259,9 @@ class Ctx:
         cmd = ["timeout", str(timeout), "coqc", "-Q", THEORIES, "GT", "-Q", self.gen, "GTgen"]
         for d, n in extra_q:
             cmd += ["-Q", d, n]
-        rc, out = sh(cmd + [p], cwd=self.gen, timeout=timeout + 30)
+        # large case literals need a deep parser stack: lift the soft stack limit where allowed
+        wrapped = ["sh", "-c", "ulimit -s unlimited 2>/dev/null || ulimit -s 1048576 2>/dev/null; exec \"$@\"", "sh"] + cmd + [p]
+        rc, out = sh(wrapped, cwd=self.gen, timeout=timeout + 30)
         return rc, out
 
     def judge_cases(self, header, case_type, judge, case_terms, shard=500, nontrivial=None,
@@ -267,7 +269,19 @@ class Ctx:
         """Evaluate `bad_cases judge cases` in the kernel VM over the given Gallina case terms
         (one string per case), sharded and in parallel.  Returns (bad, nontrivial_count, err):
         bad = list of (global index, code)."""
-        shards = [case_terms[i:i + shard] for i in range(0, len(case_terms), shard)]
+        # shards of at most `shard` cases and at most ~3 MB of text each (Coq's parser recurses over
+        # a list literal: very long literals overflow its stack)
+        shards, starts, cur, size = [], [], [], 0
+        for i, t in enumerate(case_terms):
+            if cur and (len(cur) >= shard or size + len(t) > 3_000_000):
+                shards.append(cur)
+                cur, size = [], 0
+            if not cur:
+                starts.append(i)
+            cur.append(t)
+            size += len(t) + 2
+        if cur:
+            shards.append(cur)
         texts = []
         for k, sh_cases in enumerate(shards):
             v = [header, "Set Printing Width 1000000.", "Set Printing Depth 10000000.",
@@ -296,7 +310,7 @@ class Ctx:
                 if re.sub(r"[\[\];\s]", "", residue):
                     return bad, nt, "unreadable result list in shard %d: %s" % (k, m.group(1)[:300])
                 for a, b in pairs:
-                    bad.append((k * shard + int(a), int(b)))
+                    bad.append((starts[k] + int(a), int(b)))
                 if nontrivial:
                     m = re.search(r"RES_nt\s*=\s*(\d+)", out)
                     if m:
